@@ -398,10 +398,15 @@ pub fn follows_alt_reading(l: &Listing, b: &Built, alt: &Built) -> bool {
 /// For stores with two listings over the same data: both must follow the same reading.
 pub fn check_sibling(l: &Listing, n: usize, b: &Built) -> Option<Violation> {
     let alt = b.alternative()?;
-    let sibling = b.sibling_follows_alt?;
-    let mine = follows_alt_reading(l, b, &alt);
+    let sibling = b.sibling_lists_optional?;
+    // the entries whose status as an item the property leaves open (zero-amount allowances):
+    // those on which the two readings differ
+    let first: BTreeSet<&Key> = b.expected.iter().map(|(k, _)| k).collect();
+    let second: BTreeSet<&Key> = alt.expected.iter().map(|(k, _)| k).collect();
+    let listed = listed_keys(l, b);
+    let mine = listed.iter().any(|k| first.contains(k) != second.contains(k));
     if mine != sibling {
-        let say = |x: bool| if x { "lists fully revoked pairs (amount 0)" } else { "does not list fully revoked pairs" };
+        let say = |x: bool| if x { "lists zero-amount (revoked / used-up) pairs" } else { "does not list zero-amount (revoked / used-up) pairs" };
         return Some(Violation::new(
             "C20.listings_disagree_on_items",
             format!("{} n={}: this listing {}, the other listing over the same store {}", l.name, n, say(mine), say(sibling)),
